@@ -108,9 +108,16 @@ def main():
     try:
         done = 0
         attempts = 0
+        # corpus run first: a leading scalar whose first wire byte is a white-space character (9-13, 32) - the binary part of a
+        # saved .dods file starts right after the separator, whatever its first byte is
+        corpus = [("dataset", "ws%d" % i, (("base", "s0", code, (), (val,)), ("base", "t", "i", (2,), (1, 2))))
+                  for i, (code, val) in enumerate([("B", 10), ("B", 32), ("B", 9), ("i", 0x20000000), ("i", 0x0A000001), ("I", 0x0D000000),
+                                                   ("I", 0x0C00000B), ("f", G.f32(0x20000000)), ("f", G.f32(0x0A0B0C0D)),
+                                                   ("d", G.f64(0x2000000000000000)), ("d", G.f64(0x0920202020202020)), ("h", 0x0A00),
+                                                   ("S", "\n lead"), ("S", " ")])]
         while done < n and attempts < 20 * n:
             attempts += 1
-            desc = G.gen_dataset(rng)
+            desc = corpus.pop(0) if corpus else G.gen_dataset(rng)
             if not usable(desc):
                 continue
             done += 1
